@@ -228,6 +228,11 @@ var Fields = []FieldGen{
 			m := g.Bytes("m", n)
 			return of.NewTunMetadataField(idx, cp(v), cp(m)), oxmNode(cNX1, uint8(40+idx), v, m)
 		}
+		if g.Bool("mask_empty_not_nil") {
+			// "no mask" spelled as an empty slice (what hex.DecodeString("") or a split on an absent "/mask" gives)
+			g.Label("tun_metadata_empty_mask_slice")
+			return of.NewTunMetadataField(idx, cp(v), []byte{}), oxmNode(cNX1, uint8(40+idx), v, nil)
+		}
 		return of.NewTunMetadataField(idx, cp(v), nil), oxmNode(cNX1, uint8(40+idx), v, nil)
 	}},
 	{"NewCTStateMatchField", true, func(g *G) (*of.MatchField, *spec.Node) {
